@@ -114,6 +114,16 @@ type Interp struct {
 	unwind    int
 	fnSeen    map[*ssa.Function]bool
 	opaqueSeq int
+	timeTexts []*timeEntry
+	numSeq    int
+	lastDec   []*Term
+	maxValues int
+	decList   []*numEntry
+	decCache  map[[2]int][]*Term // (term id, signed) -> digits: one value, one text
+	nums      map[string]*numEntry
+	hexes     map[string][]*Term
+	times     map[string]*Term
+	timeSeq   int
 	cryptoSeq int
 	der       map[string]*derEntry
 	curves    map[string]Value
